@@ -19,6 +19,7 @@ from ..interp import fmt, contains, subterms
 from ..model import AnalysisError
 from .. import q
 from .. import wake
+from .. import roles
 
 
 def norm_cmp(t, truth):
@@ -176,94 +177,144 @@ def check(ctx, rep):
         rep.ob("R-COUNT", "%s: increments the in-flight counter" % fn, fn in loop_fns, "the in-flight counter is incremented outside the hand-over loop", where_of(e.fn, e.node))
     rep.require(inc_sites, "no increment of the in-flight counter found")
     rep.require(dec_sites, "no decrement of the in-flight counter found")
-    ds = prog.fn("ThrottleExecutor._do_submit")
-    ps, it2 = ctx.paths(ds, tex, depth=0)
-    cbfn = None
-    for p in ps:
+    DELEG = roles.delegate_field(ctx, tex)
+    TQ = roles.Queue(ctx, tex)
+    FUTF, FNF = TQ.roles["future"], TQ.roles["fn"]
+    cbfns = {}
+    nho = 0
+    for p in li.paths:
         if p.status == "raise":
             continue
-        subs = [e for e in p.calls() if q.call_name(e) == "submit" and q.recv(e) == ("attr", ("param", "self"), "_delegate")]
-        regs = [e for e in p.calls() if q.call_name(e) == "add_done_callback"]
-        ok = len(subs) == 1 and len(regs) == 1
-        detail = "%d delegate submits, %d callback registrations on a hand-over path" % (len(subs), len(regs))
-        if ok:
-            dfut = ("call", subs[0].d["func"], subs[0].d["args"], subs[0].d["kwargs"], subs[0].d.get("site"))
-            r = q.recv(regs[0])
-            ok = isinstance(r, tuple) and r[0] == "call" and r[1] == subs[0].d["func"]
-            detail = "the callback is registered on %s, not on the future returned by this hand-over's delegate submit" % fmt(r)
-            a = regs[0].d["args"][0] if regs[0].d["args"] else None
-            if ok and isinstance(a, tuple) and a[0] == "partial" and isinstance(a[1], tuple) and a[1][0] == "attr":
-                o, cbfn = tex.lookup(a[1][2])
-                bound = a[2]
-                okb = ("attr", ("param", "self"), cfield) in bound and ("attr", ("param", "self"), li.event_field) in bound
-                rep.ob("R-COUNT", "_do_submit: callback bound to this executor's counter and event", okb, "partial(...) must bind self.%s and self.%s" % (cfield, li.event_field), where_of(ds, regs[0].node))
-            sd = [e for e in p.calls() if q.call_name(e) == "_set_delegate"]
-            okd = len(sd) == 1 and sd[0].d["args"][:1] == (r,) and isinstance(q.recv(sd[0]), tuple) and q.recv(sd[0]) == ("attr", ("param", "job"), "future")
-            rep.ob("R-COUNT", "_do_submit: the job's future mirrors this hand-over's delegate future", okd, "job.future._set_delegate(...) must receive the future returned by the delegate submit", where_of(ds))
-        rep.ob("R-COUNT", "_do_submit: one decrement callback per hand-over", ok, detail, where_of(ds), trace_of(p))
-    rep.require(cbfn is not None, "_do_submit: decrement callback not identified")
+        subs = [e for e in p.calls() if q.call_name(e) == "submit" and isinstance(q.recv(e), tuple) and q.recv(e) == ("attr", X, DELEG)]
+        for e in subs:
+            nho += 1
+            dfut = q.result_of(e)
+            regs = [r for r in p.calls() if q.call_name(r) == "add_done_callback" and q.recv(r) == dfut and r.d["args"]]
+            decr = []
+            for r in regs:
+                F, boundargs = _callback_fn(ctx, tex, r.d["args"][0])
+                if F is not None and _decrements(ctx, F, csub):
+                    decr.append((r, F, boundargs))
+            ok = len(decr) == 1
+            rep.ob("R-COUNT", "hand-over: one decrement callback per delegate submit", ok, "%d callbacks that decrement the in-flight counter are registered on the future returned by this hand-over's delegate submit (callbacks registered on it: %d)" % (len(decr), len(regs)), where_of(e.fn, e.node), trace_of(p, e.seq))
+            if ok:
+                r, F, boundargs = decr[0]
+                cbfns[F.key] = F
+                if boundargs is not None:
+                    okb = ("attr", X, cfield) in boundargs and ("attr", X, li.event_field) in boundargs
+                    rep.ob("R-COUNT", "hand-over: callback bound to this executor's counter and event", okb, "partial(...) must bind the executor's own %s and %s" % (cfield, li.event_field), where_of(r.fn, r.node))
+            a0 = e.d["args"][0] if e.d["args"] else None
+            J = a0[1] if isinstance(a0, tuple) and a0[0] == "attr" and a0[2] == FNF else None
+            link = [c for c in p.calls() if J is not None and q.recv(c) == ("attr", J, FUTF) and dfut in c.d["args"]]
+            rep.ob("R-COUNT", "hand-over: the job's future mirrors this hand-over's delegate future", len(link) == 1, "the future of the job whose function was submitted must receive the future returned by that delegate submit (found %d such calls)" % len(link), where_of(e.fn, e.node), trace_of(p, e.seq))
+    rep.require(nho >= 1, "throttle hand-over: delegate submit not found on the worker's paths")
+    rep.require(len(cbfns) == 1, "throttle hand-over: decrement callback not identified (%s)" % sorted(cbfns))
+    cbfn = list(cbfns.values())[0]
     for fn, e in sorted(dec_sites.items()):
         rep.ob("R-COUNT", "%s: decrements the in-flight counter" % fn, fn == cbfn.qualname, "the in-flight counter is decremented outside the delegate-done callback %s" % cbfn.qualname, where_of(e.fn, e.node))
-    ps, it2 = ctx.paths(cbfn, tex, depth=1)
+    ps, it2 = ctx.paths(cbfn, tex if cbfn.owner is not None else None, depth=1)
     for p in ps:
-        decs = [s for s in p.evs("store") if s.d.get("aug") == "-" and s.d["target"][0] == "attr" and s.d["target"][2] == csub]
+        decs = [s_ for s_ in p.evs("store") if s_.d.get("aug") == "-" and s_.d["target"][0] == "attr" and s_.d["target"][2] == csub]
         rep.ob("R-COUNT", "%s: decrements exactly once" % cbfn.qualname, len(decs) == 1 and p.status == "return", "found %d decrements on a callback path (status %s)" % (len(decs), p.status), where_of(cbfn), trace_of(p))
 
-    # ---------------------------------------------------------------- last good value
-    et = prog.fn("ThrottleExecutor._eval_throttle")
-    ps, it2 = ctx.paths(et, tex, depth=0)
+    # ---------------------------------------------------------------- last good value (worker and submit)
+    o, subm = tex.lookup("submit")
+    sps, sit = ctx.paths(subm, tex, depth=5, inline=roles.std_inline)
     kinds = set()
-    for p in ps:
-        ucalls = [e for e in p.calls() if e.d.get("user")]
-        stores = [e for e in p.evs("store") if q.self_field(e.d["target"])]
-        caught = p.evs("catch")
-        rep.require(len(ucalls) == 1, "_eval_throttle: expected exactly one call of the count callable per path")
-        res = ("call", ucalls[0].d["func"], ucalls[0].d["args"], ucalls[0].d["kwargs"], None)
-        if caught or p.status == "raise":
-            kinds.add("raised")
-            ok = p.status == "return" and not stores and q.self_field(p.value)
-            rep.ob("R-LASTGOOD", "_eval_throttle: raising count callable keeps the last value", ok, "on the failure path the stored limit must be left alone and returned (status %s, stores %s, returns %s)" % (p.status, [fmt(s.d["target"]) for s in stores], fmt(p.value) if p.value else None), where_of(et), trace_of(p))
-            if caught:
-                rep.ob("R-LASTGOOD", "_eval_throttle: handler catches Exception", caught[0].d["names"] in (["Exception"], None), "handler catches %s" % caught[0].d["names"], where_of(et, caught[0].node))
-        else:
-            kinds.add("returned")
-            ok = p.status == "return" and len(stores) == 1 and stores[0].d["value"] == res and (p.value == res or p.value == stores[0].d["target"])
-            rep.ob("R-LASTGOOD", "_eval_throttle: a returned value becomes the limit", ok, "the callable's value must be stored and returned", where_of(et), trace_of(p))
-    rep.require(kinds == {"raised", "returned"}, "_eval_throttle: expected a raising and a returning path")
+    lastf = set()
+    for root, paths, XT in ((li.target, li.paths, X), (subm, sps, ("param", "self"))):
+        for p in paths:
+            ucalls = [e for e in p.calls() if e.d.get("user") and not (root is subm and e.d["func"] == ("param", "fn"))]
+            if not ucalls:
+                continue
+            rep.ob("R-LASTGOOD", "%s: the count callable is evaluated once per pass" % root.qualname, len(ucalls) == 1, "%d calls of the count callable on one path" % len(ucalls), where_of(root), trace_of(p))
+            u = ucalls[0]
+            res = q.result_of(u)
+            stores = [e for e in p.evs("store") if e.d["target"][0] == "attr" and e.d["target"][1] == XT and e.seq > u.seq and (e.d["value"] == res or e.d["target"][2] in lastf)]
+            raised = any(isinstance(r.d, tuple) and len(r.d) > 2 and isinstance(r.d[2], tuple) and r.d[2][0] == "from" and r.seq > u.seq and r.node is u.node for r in p.evs("raise")) or (p.status == "raise" and not p.evs("catch"))
+            caught = [c for c in p.evs("catch") if c.seq > u.seq]
+            lims = _limits(p, counter, XT, queue_fields)
+            if raised:
+                kinds.add("raised")
+                rep.ob("R-LASTGOOD", "%s: an exception from the count callable is contained" % root.qualname, bool(caught) and p.status != "raise" or (p.status == "raise" and bool(caught)), "the count callable's exception escapes (status %s)" % p.status, where_of(u.fn, u.node), trace_of(p, u.seq))
+                if caught:
+                    rep.ob("R-LASTGOOD", "%s: the handler around the count callable catches Exception" % root.qualname, caught[0].d["names"] in (["Exception"], None), "handler catches %s" % caught[0].d["names"], where_of(caught[0].fn, caught[0].node))
+                ok = not stores and all(isinstance(l, tuple) and l[0] == "attr" and l[1] == XT for l in lims)
+                rep.ob("R-LASTGOOD", "%s: a raising count callable keeps the last value" % root.qualname, ok, "on the failure path the stored limit must be left alone and used (stores %s, limit used %s)" % ([fmt(s_.d["target"]) for s_ in stores], [fmt(l) for l in lims]), where_of(u.fn, u.node), trace_of(p, u.seq))
+                for l in lims:
+                    if isinstance(l, tuple) and l[0] == "attr":
+                        lastf.add(l[2])
+            else:
+                kinds.add("returned")
+                ok = len(stores) == 1 and stores[0].d["value"] == res and all(l == res for l in lims)
+                if len(stores) == 1:
+                    lastf.add(stores[0].d["target"][2])
+                rep.ob("R-LASTGOOD", "%s: a returned value becomes the limit" % root.qualname, ok, "the callable's value must be stored (stores: %d) and used as the limit (used: %s)" % (len(stores), [fmt(l) for l in lims]), where_of(u.fn, u.node), trace_of(p, u.seq))
+    rep.require(kinds == {"raised", "returned"}, "count callable: expected a raising and a returning path")
+    rep.ob("R-LASTGOOD", "one field keeps the last good limit", len(lastf) == 1, "fields: %s" % sorted(lastf), where_of(subm))
 
     # ---------------------------------------------------------------- blocking mode: nullable limit
-    bu = prog.maybe_fn("ThrottleExecutor._block_until_ready")
-    if bu is not None:
-        ps, it2 = ctx.paths(bu, tex, depth=0)
-        nb = 0
-        for p in ps:
-            for b in p.evs("branch"):
-                n = norm_cmp(b.d[0], b.d[1])
-                if not n:
-                    continue
-                for lim in (n[0], n[2]):
-                    if lim == ("param", bu.params[1]):
-                        nb += 1
-                        guarded = any(none_test(x.d[0]) == lim and x.seq < b.seq and ((x.d[1] is True) == _negated(x.d[0])) for x in p.evs("branch"))
-                        rep.ob("R-NULLABLE", "_block_until_ready: limit compared only when not None", guarded, "`%s` is evaluated although the limit may be None (None means unlimited)" % fmt(b.d[0]), where_of(bu, b.node), trace_of(p, b.seq))
-        rep.require(nb >= 1, "_block_until_ready: comparison against the limit not found")
-        # blocks only while the queue holds `count` entries: the non-blocking exit is `len(queue) < limit`
-        for p in ps:
-            if p.status != "return":
+    nb = 0
+    QLEN = ("call", ("name", "len"), (("attr", ("param", "self"), queue_fields[0]),), (), None)
+    for p in sps:
+        ucalls = [e for e in p.calls() if e.d.get("user") and e.d["func"] != ("param", "fn")]
+        waits = [e for e in p.calls() if q.call_name(e) == "wait"]
+        for b in p.evs("branch"):
+            n = norm_cmp(b.d[0], b.d[1])
+            if not n or QLEN not in (n[0], n[2]):
                 continue
-            waits = [e for e in p.calls() if q.call_name(e) == "wait"]
-            for b in p.evs("branch"):
-                n = norm_cmp(b.d[0], b.d[1])
-                if n and n[2] == ("param", bu.params[1]) and n[1] == "<" and not waits:
-                    lhs = n[0]
-                    ok = isinstance(lhs, tuple) and lhs[0] == "call" and lhs[1] == ("name", "len") and lhs[2] and lhs[2][0] == ("attr", ("param", "self"), queue_fields[0])
-                    rep.ob("R-ADMIT", "_block_until_ready: returns when queue length < limit", ok, "the admission test of blocking submit must compare len(queue) with the limit, found %s" % fmt(lhs), where_of(bu, b.node))
+            lim = n[2] if n[0] == QLEN else n[0]
+            nb += 1
+            guarded = any(none_test(x.d[0]) == lim and x.seq < b.seq and ((x.d[1] is True) == _negated(x.d[0])) for x in p.evs("branch"))
+            rep.ob("R-NULLABLE", "blocking submit: limit compared only when not None", guarded, "`%s` is evaluated although the limit may be None (None means unlimited)" % fmt(b.d[0]), where_of(b.fn, b.node), trace_of(p, b.seq))
+        apps = [e for e in p.calls() if q.call_name(e) == "append" and q.recv(e) == ("attr", ("param", "self"), queue_fields[0])]
+        blocked = [t for t, v, b in q.atoms(p) if v is True and q.self_field(t) and t[2] in roles.ctor_param_fields(ctx, tex, "block")]
+        if apps and blocked and not waits and p.status == "return":
+            facts = [norm_cmp(b.d[0], b.d[1]) for b in p.evs("branch") if b.seq < apps[0].seq]
+            unlimited = any(none_test(b.d[0]) is not None and ((b.d[1] is True) != _negated(b.d[0])) for b in p.evs("branch") if b.seq < apps[0].seq)
+            strict = [n for n in facts if n and n[0] == QLEN and n[1] == "<"]
+            rep.ob("R-ADMIT", "blocking submit: enqueues only when queue length < limit", unlimited or bool(strict), "in blocking mode the job is enqueued without `len(queue) < limit` being established (facts: %s)" % [("%s %s %s" % (fmt(n[0]), n[1], fmt(n[2]))) for n in facts if n], where_of(apps[0].fn, apps[0].node), trace_of(p, apps[0].seq))
+    rep.require(nb >= 1, "blocking submit: comparison of the queue length against the limit not found")
 
     # ---------------------------------------------------------------- wake-ups
     wake.check_loops(ctx, rep, [li], components="state")
     wake.check_producers(ctx, rep, [li])
     wake.second_waiters(ctx, rep, [li])
     wake.check_producers(ctx, rep, [li], minus_for="blocked submitters", rule="R-WAKE-Q")
+
+
+def _callback_fn(ctx, cls, v):
+    """(function, bound positional args or None) of a callback value: partial(f, ...), self.method, module function, closure"""
+    boundargs = None
+    if isinstance(v, tuple) and v and v[0] == "partial":
+        boundargs = tuple(v[2]) + tuple(x for k, x in v[3])
+        v = v[1]
+    if isinstance(v, tuple) and v and v[0] == "attr":
+        o, m = cls.lookup(v[2])
+        return m, boundargs
+    if isinstance(v, tuple) and v and v[0] == "func":
+        return ctx.prog.functions.get(v[1]), boundargs
+    f = roles.closure_fn(v)
+    return f, boundargs
+
+
+def _decrements(ctx, F, csub):
+    ps, it = ctx.paths(F, F.owner, depth=1)
+    return any(s_.d.get("aug") == "-" and s_.d["target"][0] == "attr" and s_.d["target"][2] == csub for p in ps for s_ in p.evs("store"))
+
+
+def _limits(p, counter, XT, queue_fields):
+    """limit terms this path compares the in-flight counter / the queue length against"""
+    out = []
+    qlens = [("call", ("name", "len"), (("attr", XT, f),), (), None) for f in queue_fields]
+    for b in p.evs("branch"):
+        n = norm_cmp(b.d[0], b.d[1])
+        if not n:
+            continue
+        for x, y in ((n[0], n[2]), (n[2], n[0])):
+            if (x == counter or x in qlens) and y not in out:
+                out.append(y)
+    return out
 
 
 def _negated(t):
